@@ -831,6 +831,8 @@ def shallow_copy(interp, x):
         b = Box(x.cur)
         b.attrs = dict(x.attrs)
         b.attrs.pop('shares', None)
+        b.base_zero = x.base_zero
+        b.log = list(x.log)
         return b
     if isinstance(x, View):
         return Box(x.snap())
@@ -878,6 +880,7 @@ def deep_copy(x, memo):
         b.attrs = dict(x.attrs)
         b.attrs.pop('shares', None)
         b.base_zero = x.base_zero
+        b.log = list(x.log)             # flat vectors keep their scattered entries in the log (arrays._clone_vec)
         memo[k] = b
         memo[key(x)] = b
         return b
